@@ -255,13 +255,13 @@ def gen_special(rng, k):
     elif which == "zrle_short":
         w, h = W, H
         data = rng.choice(["00", "", "01", "80", "7f", "ff", "00" + rb(3), "82" + rb(9), "11" + rb(40)])
-        L += ["b 00000001", "b " + hdr(0, 0, w, h, 16), "z 0 1 1 " + data,
-              "b 00000001", "b " + hdr(0, 0, w, h, 16), "z 0 0 1 " + rng.choice(["00", "7f", "ff", "80"])]
+        L += ["b 00000001", "b " + hdr(0, 0, w, h, 16), "z 5 1 1 " + data,
+              "b 00000001", "b " + hdr(0, 0, w, h, 16), "z 5 0 1 " + rng.choice(["00", "7f", "ff", "80"])]
     elif which == "zrle_types":
         w, h = W, H
         t = rng.choice([2, 16, 17, 100, 127, 128, 129, 130, 255])
         data = "%02x" % t + rb(rng.choice([0, 10, 200, 600, 2000]))
-        L += ["b 00000001", "b " + hdr(0, 0, w, h, 16), "z 0 1 1 " + data]
+        L += ["b 00000001", "b " + hdr(0, 0, w, h, 16), "z 5 1 1 " + data]
     elif which == "zrle_exact":
         # the decompressed data fills the scratch area (2 x raw size of the rectangle) to the last byte and the last
         # tile ends exactly there: reads of whole machine words for the final CPIXEL / run length leave the block
@@ -273,7 +273,7 @@ def gen_special(rng, k):
         r = max(0, min(63, room // (cpx + 1)))
         kk = max(0, room - r * (cpx + 1))
         t1 = "80" + (rb(cpx) + "00") * r + rb(cpx) + "ff" * kk + "00"
-        L += ["b 00000001", "b " + hdr(0, 0, W, H, 16), "z 0 1 1 " + t1 + t2]
+        L += ["b 00000001", "b " + hdr(0, 0, W, H, 16), "z 5 1 1 " + t1 + t2]
     elif which == "zero_dim":
         # rectangles of width 0 and / or height 0 at every position the 'Rect too large' test lets through (x = W, y = H
         # included), for EVERY decoder, with a payload the decoder accepts as far as it reads one
@@ -290,7 +290,7 @@ def gen_special(rng, k):
                               "80" + rb(3 if fmtname in ("rgb888", "bgr888", "rgb888up") else bypp), "0f", "44" + "02"])
             L.append("b " + ctl)
         elif ename in ("zlib", "zrle", "zywrle"):
-            L.append("z 0 1 1 " + rb(rng.choice([0, 1, 4])))
+            L.append("z %d 1 1 " % (0 if ename == "zlib" else 5) + rb(rng.choice([0, 1, 4])))
         elif ename in ("ultra", "ultrazip"):
             L.append("l " + rb(rng.choice([0, 4, 12])))
         elif ename == "copyrect":
@@ -400,7 +400,7 @@ def gen_special(rng, k):
         if trle:
             L += ["b 00000001", "b " + hdr(0, 0, W, H, 15), "b " + body]
         else:
-            L += ["b 00000001", "b " + hdr(0, 0, W, H, 16), "z 0 1 1 " + body]
+            L += ["b 00000001", "b " + hdr(0, 0, W, H, 16), "z 5 1 1 " + body]
     elif which == "corre_count":
         n = rng.choice([0, 1, 38399, 38400, 38401, 51200, 51201, 61440, 61441, 0xffffffff])
         L += ["b 00000001", "b " + hdr(0, 0, W, H, 4) + be32(n) + rb(bypp) + rb(min(n, 70000) * (4 + bypp) if n < 100000 else 64)]
@@ -745,6 +745,14 @@ def probe_fixes(cexe, mexe):
     ml = vlib.split_cases(mout)
     if il and ml and [l for l in il[0][1] if not l.startswith("verdict ")] == ml[0][1] and "end ok" in ml[0][1]:
         mask |= 128
+    # notes/fix_C07_3.diff (ZRLE inflate stream of its own): a Zlib rectangle followed by a ZRLE rectangle
+    script = "\n".join(C07.PROBE_ZSTREAM) + "\n"
+    rc1, cout, cerr = vlib.run_driver([cexe, "20"], script, timeout=120)
+    rc2, mout, merr = vlib.run_driver([mexe, "dec"], script, timeout=120, unlimited_stack=True)
+    il = vlib.split_cases(cout)
+    ml = vlib.split_cases(mout)
+    if il and ml and [l for l in il[0][1] if not l.startswith("verdict ")] == ml[0][1] and "end ok" in ml[0][1]:
+        mask |= 2048
     return mask
 
 
